@@ -206,8 +206,7 @@ theorem C08_rejected_leaves_no_trace (o : Ora) (i : In) (n : Nat) (st a b r irt 
   | login => simp at h
 
 theorem C08_source_current : Gen.Facts.ssoChain = Expected.ssoChain ∧ Consts.current = true ∧
-    FactsUtil.sameHashes ["provider.Response.sendBackResponse",
-      "checker.Checker.CheckFailed"] = true :=
+    FactsUtil.sameHashes ["checker.Checker.CheckFailed"] = true :=
   ⟨sso_skeleton_current, consts_current, by decide⟩
 
 end C08
